@@ -32,11 +32,20 @@ def flat(x):
 
 def main():
     seed, reps, outp = int(sys.argv[1]), int(sys.argv[2]), sys.argv[3]
+    res = []
+    try:
+        body(seed, reps, res)
+    except Exception as e:      # a set-up step between the recorded calls failed (e.g. building an operand): reported, not lost
+        import traceback
+        res.append(['worker-setup', 'EXC:%s:%s | %s' % (type(e).__name__, str(e)[:120], ' <- '.join(l.strip() for l in traceback.format_exc().splitlines()[-7:-1])[:500])])
+    json.dump({'boundscheck': os.environ.get('NUMBA_BOUNDSCHECK', '0'), 'results': res}, open(outp, 'w'))
+
+
+def body(seed, reps, res):
     import mrargs, armh, sph, gen as G
     import basic_robotics.modern_robotics_numba as mrn
     from basic_robotics.general import fmr, tm, fsr, Wrench
     mr = mrn.mr
-    res = []
 
     def call(label, f, *a, **k):
         try:
@@ -120,7 +129,6 @@ def main():
             for ty in ('m', 'b', 't'):
                 call('sp.getActuatorLoc[%d%s]' % (i, ty), sp.getActuatorLoc, i, ty)
         call('sp.getJointAnglesFromNorm', sp.getJointAnglesFromNorm)
-    json.dump({'boundscheck': os.environ.get('NUMBA_BOUNDSCHECK', '0'), 'results': res}, open(outp, 'w'))
 
 
 if __name__ == '__main__':
